@@ -44,6 +44,8 @@ fn sqlite_feature(text: &str) -> &'static str {
 /// the first dialect-specific construct present in a rendered text (classifies read-back failures)
 fn feature(text: &str) -> &'static str {
     let up = text.to_uppercase();
+    // an infinite float written as the bare word `inf` (Rust's Display of f64::INFINITY): an identifier to every SQL reader
+    if up.contains("(INF)") || up.contains("(-INF)") { return "infinite-literal"; }
     for (kw, name) in [("CHECKSUM(", "checksum"), ("LEN(", "len"), ("TOP (", "top"), ("SUBSTRING(", "substring"), ("TRUNC(", "trunc"), ("CONVERT(", "convert"), ("FLOAT(", "float-call"), ("STRING(", "string-call"), ("MEAN(", "mean"), ("VAR(", "var"), ("STD(", "std"), ("STDDEV", "stddev"), ("VARIANCE", "variance"), ("FIRST(", "first"), ("LAST(", "last"), ("MD5(", "md5"), ("HASHBYTES", "hashbytes"),
                        ("GREATEST(", "greatest"), ("LEAST(", "least"), ("(VALUES", "values"), ("CAST(", "cast"), ("SAFE_CAST", "safe-cast"), ("UNNEST", "unnest"), ("FULL JOIN", "full-join"), ("CASE ", "case"), ("COALESCE(", "coalesce"), ("OFFSET", "offset"), ("LIMIT", "limit")] {
         if up.contains(kw) { return name; }
@@ -194,7 +196,13 @@ pub fn dump_dialects() -> J {
 // stream `dialectdp`: relations produced by the DP rewriting (noise, clipping, thresholds, MD5 of the privacy unit, public-value
 // VALUES lists) rendered by the eight translators: accepted by the dialect's parser; read back with the same names, order and types
 
-pub fn gen_dp(rng: &mut Rng, k: usize, tier: &str) -> J { crate::s_exec::gen_c09(rng, k, tier) }
+pub fn gen_dp(rng: &mut Rng, k: usize, tier: &str) -> J {
+    let mut c = crate::s_exec::gen_c09(rng, k, tier);
+    // one case in eight with a δ so small that the threshold of the key release is +∞: what literal do the translators write for it?
+    c["dp_delta"] = json!(if rng.chance(1, 8) { 1e-300 } else { 1e-4 });
+    if rng.chance(1, 16) { c["sql"] = json!("SELECT age AS k0, count(age) AS c FROM users GROUP BY age"); c["dp_delta"] = json!(1e-300); }
+    c
+}
 
 pub fn eval_dp(case: &J) -> Outcome {
     use qrlew::differential_privacy::DpParameters;
@@ -202,7 +210,7 @@ pub fn eval_dp(case: &J) -> Outcome {
     let sql = case["sql"].as_str().unwrap().to_string();
     let rels = crate::s_rules::world();
     let rel = match guarded(|| { let q = parse(&sql).map_err(|e| e.to_string())?; Relation::try_from(QueryWithRelations::new(&q, &rels)).map_err(|e| e.to_string()) }) { Ok(Ok(r)) => r, _ => { out.tag("trivial"); return out; } };
-    let dp = match guarded(|| rel.rewrite_with_differential_privacy(&rels, None, crate::s_rules::privacy_unit(), DpParameters::from_epsilon_delta(1.0, 1e-4))) {
+    let dp = match guarded(|| rel.rewrite_with_differential_privacy(&rels, None, crate::s_rules::privacy_unit(), DpParameters::from_epsilon_delta(1.0, case["dp_delta"].as_f64().unwrap_or(1e-4)))) {
         Ok(Ok(d)) => d, Ok(Err(_)) => { out.tag("trivial"); out.tag("dp-err"); return out; }
         Err((loc, msg)) => { out.tag("trivial"); out.fail(&format!("C18/dialectdp/rewrite-panic/{}", site(&loc, &msg)), format!("{sql}: {msg}")); return out; } };
     let rel = dp.relation().clone();
